@@ -15,6 +15,17 @@ use tiny_http::{Request, Response};
 
 pub struct C11;
 
+/// This check is cheap: the quick tier already runs the full alphabet (what used to be the
+/// thorough tier); `deep` marks the extras that only the thorough tier adds.
+#[allow(dead_code)]
+fn full(_t: Tier) -> bool {
+    true
+}
+#[allow(dead_code)]
+fn deep(t: Tier) -> bool {
+    t == Tier::Thorough
+}
+
 #[derive(Clone, Copy, Debug, PartialEq)]
 pub enum Kind {
     None,
@@ -195,9 +206,9 @@ pub fn judge(sc: &Sc, o: &O, res: &RunResult) -> Vec<(String, String)> {
 fn items(tier: Tier) -> &'static Vec<(Sc, u32)> {
     static Q: OnceLock<Vec<(Sc, u32)>> = OnceLock::new();
     static T: OnceLock<Vec<(Sc, u32)>> = OnceLock::new();
-    let cell = if tier == Tier::Quick { &Q } else { &T };
+    let cell = if !full(tier) { &Q } else { &T };
     cell.get_or_init(|| {
-        let thorough = tier == Tier::Thorough;
+        let thorough = full(tier);
         let all = [Kind::None, Kind::Cl1, Kind::Cl1024, Kind::Cl1025, Kind::Chunked10];
         let two = [Kind::None, Kind::Cl1024];
         let mut v = Vec::new();
@@ -247,7 +258,7 @@ impl Check for C11 {
             mode: Mode::Strict,
             bound: Some(*bound),
             max_execs: 300_000,
-            wall: Duration::from_secs(if tier == Tier::Thorough { 200 } else { 30 }),
+            wall: Duration::from_secs(if full(tier) { 200 } else { 30 }),
         };
         let (s2, s3) = (sc.clone(), sc.clone());
         let found = explore_scenario::<O, _, _>(&cfg, acc, &sc.to_json(), move |o| body(s2.clone(), o), |o, r| judge(&s3, o, r));
@@ -259,7 +270,7 @@ impl Check for C11 {
     fn rule(&self, tier: Tier) -> String {
         format!(
             "pipelines of n = 2..{} requests over body kinds {{none, Content-Length 1 / 1024 / 1025, chunked 10}} and n = {}..8 over {{none, Content-Length 1024}}, sent in one piece; application program: pipelines whose bodies are all absent or <= 1024 bytes: collect all n requests with recv() before answering any (a request that does not become available leaves the application blocked: deadlock report = violation); otherwise a request with a larger or chunked body is read to its end / answered / dropped and then the successor is waited for; {} scenarios, all schedules with at most 1 deviation (strict) for n <= {}, default schedule beyond; non-trivial = all",
-            if tier == Tier::Thorough { 4 } else { 3 }, if tier == Tier::Thorough { 5 } else { 4 }, items(tier).len(), if tier == Tier::Thorough { 3 } else { 2 }
+            if full(tier) { 4 } else { 3 }, if full(tier) { 5 } else { 4 }, items(tier).len(), if full(tier) { 3 } else { 2 }
         )
     }
     fn assumptions(&self) -> Vec<String> {
